@@ -198,7 +198,7 @@ func TestConcurrent(t *testing.T) {
 			oldConns[i] = rapid.IntRange(1, 2).Draw(rt, "oldConns")
 			oldVals[i] = rapid.IntRange(-2, 6).Draw(rt, "oldValue")
 		}
-		ng := rapid.IntRange(2, 5).Draw(rt, "goroutines")
+		ng := rapid.IntRange(2, 6).Draw(rt, "goroutines")
 		plans := make([][]cop, ng)
 		for g := range plans {
 			n := rapid.IntRange(3, 14).Draw(rt, "nops")
